@@ -304,6 +304,17 @@ def hash_part(run):
             run.violated('validate collects the per-file results keyed by id', 'M', 'results-not-keyed-by-id', {'detail': detail}, native_two_orders().get('distinct', 1) > 1, detail=detail)
     except mir.Unsupported as e:
         run.inconclusive('result collection', 'M', str(e))
+    # (e) nothing is carried from one file to the next: the per-file closure captures shared references only
+    try:
+        ok, detail = closure_is_stateless(prog)
+        title = 'the per-file closure of validate captures shared references only (no state is carried from one file to the next, whatever order the files are visited in)'
+        if ok:
+            run.holds(title, 'M', detail=detail)
+        else:
+            d = native_duplicate_items()
+            run.violated(title, 'M', 'per-file-closure-carries-state', {'detail': detail, 'native_distinct_outputs': d}, d > 1, detail=detail)
+    except mir.Unsupported as e:
+        run.inconclusive('captures of the per-file closure', 'M', str(e))
     # (b), (c)
     try:
         _S = tc.Setup()
@@ -334,6 +345,34 @@ def hash_part(run):
             run.violated(title, 'T', key, {'solver': viol[:2], 'native_distinct_outputs': nat}, rep, queries=nq, solver_s=secs, detail=viol[0]['what'], bound='unbounded strings')
         else:
             run.holds(title, 'T', queries=max(1, nq), solver_s=secs, bound='unbounded strings; %d path pairs' % pairs)
+
+
+def closure_is_stateless(prog):
+    cl = [f for f in prog.fns if re.search(r'(^|::)validate::\{closure#0\}$', f.name)]
+    if len(cl) != 1:
+        raise mir.Unsupported('validate closure: %d candidates' % len(cl))
+    # the closure is called through FnMut (map): its environment parameter is `&mut {closure}`; what matters is the type of each captured field
+    txt = ' '.join(' '.join(b) for b in cl[0].blocks.values())
+    caps = sorted(set(re.findall(r'\(\(\*_1\)\.(\d+): ([^)]*?)\)', txt)))
+    bad = [(i, t) for i, t in caps if not t.startswith('&') or t.startswith('&mut')]
+    outer = [f for f in prog.fns if re.search(r'(^|::)validation::validate$|^validate$', f.name) and '::verif' not in f.name]
+    agg = None
+    for b in outer[0].blocks.values():
+        for st in b:
+            m = re.search(r'= \{closure@[^}]*\} \{ (.*) \};', st)
+            if m:
+                agg = m.group(1)
+    if agg and re.search(r'&mut ', agg):
+        bad.append(('aggregate', agg[:80]))
+    if bad:
+        return False, 'captured by value or by unique reference: %s' % bad[:3]
+    return True, '%d captured field(s), all shared references' % len(caps)
+
+
+def native_duplicate_items():
+    files = {'a.aidl': 'package p; interface X { void f(); }', 'b.aidl': 'package p; interface X { void f(); }', 'c.aidl': 'package p; interface X { void f(); }',
+             'd.aidl': 'package p; import p.X; interface I { void g(in X x); }'}
+    return replay.determinism(files, 60).get('distinct', 0)
 
 
 def results_keyed_by_id(prog):
